@@ -46,6 +46,7 @@ def main():
     args = sys.argv[1:]
     tier = "quick"
     pinned = False
+    on_base = False  # --base: apply each seed to the commit it was written for instead of HEAD (a later fix may have neutralised it)
     extra = ""
     ids = []
     while args:
@@ -54,8 +55,12 @@ def main():
             tier = args.pop(0)
         elif a == "--pinned":
             pinned = True
+        elif a == "--base":
+            on_base = True
         elif a == "--only":
-            extra = "--only " + args.pop(0)
+            import shlex
+
+            extra = "--only " + shlex.quote(args.pop(0))
         else:
             ids.append(a)
     seeds = []
@@ -82,7 +87,11 @@ def main():
         else:
             meta = json.load(open(os.path.join(VERIF, "seeded", s, "meta.json")))
             pid = as_prop.get(s, meta["property"])
-            rc, out = check_tree(pid, os.path.join(VERIF, "seeded", s, "patch.diff"), tier, extra=extra)
+            rc, out = check_tree(pid, os.path.join(VERIF, "seeded", s, "patch.diff"), tier, rev=(meta.get("base_commit") or "HEAD") if on_base else "HEAD", extra=extra)
+            if rc is None and "does not apply" in (out or "") and meta.get("base_commit"):
+                # the repository moved on under the seed (a later fix touches the same lines): test it on the commit it was written for
+                rc, out = check_tree(pid, os.path.join(VERIF, "seeded", s, "patch.diff"), tier, rev=meta["base_commit"], extra=extra)
+                out = f"(applied to its base commit {meta['base_commit'][:7]})\n" + (out or "")
         lines = [l for l in (out or "").splitlines() if l.startswith(("VIOLATION", "KNOWN-FINDING", "  violation", pid + " tier"))]
         verdict = "DETECTED" if rc == 1 and any(l.startswith("VIOLATION") for l in lines) else f"MISSED (rc={rc})"
         print(f"== {s}: {verdict}")
